@@ -9,6 +9,11 @@ def configs(tier, seed):
         cfgs.append(dict(kind="select", model="knn", max_k=max_k, weight=2 ** max_k))
         for min_k in range(1, max_k + 1):
             cfgs.append(dict(kind="select", model="uns", min_k=min_k, max_k=max_k, weight=2 ** (max_k - min_k)))
+    # the criterion of the unsupervised model against its definition (the accuracy criterion is C20's subject)
+    for n, k in ([(2, 1), (3, 1), (3, 2)] if tier == "quick" else [(2, 1), (3, 1), (3, 2), (4, 1), (4, 2)]):
+        for branch in ("pre", "fn"):
+            cfgs.append(dict(kind="cut", n=n, k=k, branch=branch, clusters=2 if n < 4 else 3, logic="fresh",
+                             weight=(n ** n) * 40, timeout_ms=60000))
     return cfgs
 
 
@@ -18,10 +23,11 @@ def signature(prop, cfg, viol):
 
 
 def describe(v, tier):
-    v.bounds = dict(max_k="<= 5 (quick) / <= 8 (thorough), every min_k <= max_k")
+    v.bounds = dict(max_k="<= 5 (quick) / <= 8 (thorough), every min_k <= max_k",
+                    normalised_cut="definition checked on injected graphs: n<=3, k<=2, every neighbour choice and 2-clustering (quick) / n<=4, 3 clusters (thorough), symbolic asymmetric distances (zeros included)")
     v.assumptions = ["the criterion is an environment stub: each evaluation returns an arbitrary real (accuracy in [0,1]; "
                      "cut in [0, 1e6]), which over-approximates every data set; arc creation / pdf / clustering / predict are recording no-ops",
                      "the criteria themselves are checked by C20 (accuracy)"]
-    v.outside = ["max_k > 8", "the value of the normalised cut itself"]
+    v.outside = ["max_k > 8", "the normalised cut on graphs with more than 3 (quick) / 4 (thorough) nodes"]
     v.stubs = ["opfython.math.general.opf_accuracy, UnsupervisedOPF._normalized_cut -> nondeterministic stubs",
                "KNNSubgraph.create_arcs/calculate_pdf/destroy_arcs, _clustering, predict -> recording no-ops"]
